@@ -41,6 +41,10 @@ MODIFIES = {
     "valida.rules:Rule.test": (["_data_copy"], None),
     # the schema being extended (its rule list), by design
     "valida.schema:Schema.add_schema": (["self.rules"], None),
+    # Data.set works on `get_original()`, a *shallow* rebuild of the wrapped document, and set_datum walks into its nested
+    # containers: the wrapped document's inner containers are written (its docstring says "return a copy").  Nothing in
+    # the package calls Data.set, so no property's cone contains it; the frame is declared as it is, not assumed away.
+    "valida.data:Data.set": (["self"], None),
     # property setters (called on the fresh object of __init__ / of copy.copy)
     "valida.datapath:DataPath.DATUM_TYPE": (["self._DATUM_TYPE"], None),
     "valida.datapath:DataPath.MULTI_TYPE": (["self._MULTI_TYPE"], None),
